@@ -45,6 +45,30 @@ def gl_session(text, queries):
     return out
 
 
+def uses_of(text, names):
+    if not names:
+        return {}
+    reps = gl_session(text, ["uses " + n for n in sorted(names)])[1:]
+    uses = {}
+    for n, rep in zip(sorted(names), reps):
+        uses[n] = set(rep[5:].split(",")) if rep.startswith("uses ") and rep != "uses -" else set()
+    return uses
+
+
+def tainted_by_rejection(uses, names, fns):
+    """functions of the emitted file that (transitively) mention a function that was rejected"""
+    missing = {f for f in fns if f not in names}
+    bad = set()
+    changed = True
+    while changed:
+        changed = False
+        for n, us in uses.items():
+            if n not in bad and (us & missing or us & bad):
+                bad.add(n)
+                changed = True
+    return bad
+
+
 def unhex(reply):
     w = reply.split(" ", 1)
     if len(w) == 2 and w[0] in ("stuck", "parse-error"):
@@ -63,7 +87,8 @@ def run_package(files, calls, scratch, keep=False):
     if nat is None:
         raise C.Infra("generated package does not build/run natively: " + nerr)
     rc, gerr, text = translate(root)
-    res = {"native": nat, "goose_rc": rc, "goose_stderr": gerr, "text": text, "calls": [], "mismatches": [], "rejected": [], "parse_error": None}
+    res = {"native": nat, "goose_rc": rc, "goose_stderr": gerr, "text": text, "calls": [], "mismatches": [], "rejected": [], "parse_error": None,
+           "order_violations": [], "duplicates": []}
     if text is None:
         res["parse_error"] = "no output file"
         return res
@@ -71,7 +96,17 @@ def run_package(files, calls, scratch, keep=False):
     if replies[0].startswith("parse-error"):
         res["parse_error"] = unhex(replies[0])
         return res
-    names = set(replies[1][6:].split(",")) if replies[1] != "names -" else set()
+    order = replies[1][6:].split(",") if replies[1] != "names -" else []
+    names = set(order)
+    fns = sorted({fn for _, fn, _ in calls})
+    uses = uses_of(text, names)
+    tainted = tainted_by_rejection(uses, names, fns)
+    # Coq reads the file top to bottom: a definition may only mention same-file definitions above it
+    pos = {}
+    for i, n in enumerate(order):
+        pos.setdefault(n, i)
+    res["duplicates"] = sorted({n for n in order if order.count(n) > 1})
+    res["order_violations"] = [(n, u) for n in order for u in sorted(uses.get(n, ())) if u in pos and pos[u] >= pos[n]]
     for (label, fn, args), rep in zip(calls, replies[2:]):
         want = nat.get(label)
         got = unhex(rep)
@@ -82,6 +117,8 @@ def run_package(files, calls, scratch, keep=False):
             continue
         if want == "gopanic":
             continue          # outside the quantifier (Go panics)
+        if fn in tainted:
+            continue          # mentions a declaration that was rejected (only with -ignore-errors)
         if got != "value " + want:
             res["mismatches"].append({"call": label, "fn": fn, "args": args, "go": want, "gl": got})
     if not keep:
@@ -93,3 +130,62 @@ def func_source(files, fn):
     src = files["p/p.go"]
     m = re.search(r"^func %s\(.*?^}\n" % re.escape(fn), src, re.S | re.M)
     return m.group(0) if m else None
+
+
+def emitted_def(text, fn):
+    m = re.search(r"^Definition %s(?=[ :(]).*?\.\n(?=\n|\Z)" % re.escape(fn), text or "", re.S | re.M)
+    return m.group(0) if m else None
+
+
+def campaign(seeds, scratch, make, workers=12):
+    """Run `make(seed) -> (files, calls)` through run_package for every seed, in parallel.
+    Yields (seed, files, calls, result)."""
+    import concurrent.futures
+
+    def one(seed):
+        files, calls = make(seed)
+        sub = os.path.join(scratch, "s%d" % seed)
+        os.makedirs(sub, exist_ok=True)
+        try:
+            return seed, files, calls, run_package(files, calls, sub)
+        finally:
+            shutil.rmtree(sub, ignore_errors=True)
+    with concurrent.futures.ThreadPoolExecutor(max_workers=workers) as ex:
+        for res in ex.map(one, list(seeds)):
+            yield res
+
+
+def single_function_package(files, fn, calls):
+    """The package reduced to `fn`, the declarations it needs, and the runner calls for `fn` only
+    (first step of shrinking: most mistranslations are local to one function)."""
+    src = files["p/p.go"]
+    decls = re.split(r"\n(?=func |type )", src)
+    head, decls = decls[0], decls[1:]
+    keep = []
+    names = {}
+    for d in decls:
+        m = re.match(r"func (?:\([^)]*\) )?(\w+)|type (\w+)", d)
+        names[m.group(1) or m.group(2)] = d
+    need, todo = set(), [fn]
+    while todo:
+        n = todo.pop()
+        if n in need or n not in names:
+            continue
+        need.add(n)
+        for other in names:
+            if other not in need and re.search(r"\b%s\b" % re.escape(other), names[n]):
+                todo.append(other)
+    for d in decls:
+        m = re.match(r"func (?:\([^)]*\) )?(\w+)|type (\w+)", d)
+        if (m.group(1) or m.group(2)) in need:
+            keep.append(d)
+    body = "\n".join(keep)
+    if "machine." not in body:
+        head = head.replace('import "github.com/goose-lang/goose/machine"\n', "")
+    run = files["p/run.go"]
+    pre, _, rest = run.partition("func RunAll() {\n")
+    lines = [l for l in rest.split("\n") if re.search(r'call\("%s#' % re.escape(fn), l)]
+    out = dict(files)
+    out["p/p.go"] = head + "\n" + body + "\n"
+    out["p/run.go"] = pre + "func RunAll() {\n" + "\n".join(lines) + "\n}\n"
+    return out, [c for c in calls if c[1] == fn]
